@@ -90,6 +90,8 @@ typedef struct {
   int running_on;   // kernel thread or -1
   int alive;
   void* ctx;
+  int hot;  // the fiber has been made runnable or is running: nobody else may touch its stack any more
+  int id;
 } fstack_t;
 #define MAXFSTACK 32
 extern fstack_t fmc_fstacks[MAXFSTACK];
